@@ -1522,6 +1522,11 @@ type ServerSession struct {
 	// via jsonrpc2.Connection.Cancel to avoid deadlocking on the jsonrpc2
 	// drain. See modelcontextprotocol/go-sdk#1160.
 	listenIDs []jsonrpc.ID
+	// closing is set by Close before it cancels the handlers in listenIDs. A
+	// subscriptions/listen request that only reaches its handler afterwards
+	// (it was still queued when Close took the IDs) must not park: nothing
+	// would cancel it, and Close would wait for it forever.
+	closing bool
 }
 
 func (ss *ServerSession) updateState(mut func(*ServerSessionState)) {
@@ -1969,8 +1974,14 @@ func (ss *ServerSession) handle(ctx context.Context, req *jsonrpc.Request) (any,
 	// avoid deadlocking on the jsonrpc2 drain.
 	if req.Method == methodSubscriptionsListen {
 		ss.mu.Lock()
-		ss.listenIDs = append(ss.listenIDs, req.ID)
+		closing := ss.closing
+		if !closing {
+			ss.listenIDs = append(ss.listenIDs, req.ID)
+		}
 		ss.mu.Unlock()
+		if closing {
+			return nil, jsonrpc2.ErrServerClosing
+		}
 	}
 
 	res, err := handleReceive(ctx, ss, req)
@@ -2083,6 +2094,7 @@ func (ss *ServerSession) Close() error {
 	ss.mu.Lock()
 	ids := ss.listenIDs
 	ss.listenIDs = nil
+	ss.closing = true
 	ss.mu.Unlock()
 	for _, id := range ids {
 		ss.conn.Cancel(id)
